@@ -1577,9 +1577,16 @@ func C11(ctx *core.Ctx) error {
 		}
 		cov.AddTraces(htRes.Lines)
 	}
-	for _, want := range []string{"dln:present:collide:rej", "dln:present:same:rej", "alice:present:collide:rej", "sch:present:same:rej", "bob:present:partial:rej", "fac:present:partial:rej"} {
-		if hToy[want] == 0 && len(ctx.Violations()) == 0 {
-			return core.Inconcl("toy histories: no line of class %s was produced", want)
+	// every relation must have been presented (and rejected) at toy size at least once, by whichever system
+	for _, rel := range []string{"same", "collide", "partial"} {
+		n := 0
+		for k, v := range hToy {
+			if strings.Contains(k, ":present:"+rel+":rej") {
+				n += v
+			}
+		}
+		if n == 0 && len(ctx.Violations()) == 0 {
+			return core.Inconcl("toy histories: no rejected presentation of relation %q was produced", rel)
 		}
 	}
 	if len(vacuous) > 0 && len(ctx.Violations()) == 0 {
